@@ -1,0 +1,23 @@
+//go:build verif
+
+package vestingsc
+
+import (
+	chainstate "0chain.net/chaincore/chain/state"
+)
+
+// Thin wrappers for the verification harness (vesting pools, C16). No logic.
+
+// VerifContractsPoolJSON returns the stored vesting pool as JSON (vestingPool.Encode).
+func VerifContractsPoolJSON(poolID string, balances chainstate.CommonStateContextI) ([]byte, error) {
+	vp, err := getPool(poolID, balances)
+	if err != nil {
+		return nil, err
+	}
+	return vp.Encode(), nil
+}
+
+// VerifContractsPoolKey returns the state key of the pool created by the transaction with this hash.
+func VerifContractsPoolKey(txnHash string) string {
+	return poolKey(ADDRESS, txnHash)
+}
